@@ -353,6 +353,15 @@ func init() {
 		}
 		return "ok " + idsOf(f, false)
 	})
+	// num.text: the source text of a shape (explicit IDs as given) and, when llir accepts it, the text llir prints: for LLVM's own parser
+	reg("num.text", func(a []string) string {
+		src := slotsText(parseSlots(a))
+		_, m, err := parsedF(src)
+		if err != nil {
+			return hexOut([]byte(src)) + " -"
+		}
+		return hexOut([]byte(src)) + " " + hexOut([]byte(m.String()))
+	})
 	reg("num.parse", func(a []string) string {
 		f, _, err := parsedF(slotsText(parseSlots(a)))
 		if err != nil {
